@@ -160,12 +160,19 @@ func (sc *SlotChain) AddStatSlot(s StatSlot) {
 // The entrance of slot chain
 // Return the TokenResult and nil if internal panic.
 func (sc *SlotChain) Entry(ctx *EntryContext) *TokenResult {
+	// statStarted tells whether the statistic slots have been (at least partly) told the outcome.
+	statStarted := false
 	// This should not happen, unless there are errors existing in Sentinel internal.
 	// If happened, need to add TokenResult in EntryContext
 	defer func() {
 		if err := recover(); err != nil {
 			logging.Error(errors.Errorf("%+v", err), "Sentinel internal panic in SlotChain.Entry()")
 			ctx.SetError(errors.Errorf("%+v", err))
+			if !statStarted {
+				// The statistic slots were never told that this entry passed,
+				// so they must not be told that it completed either.
+				ctx.statSkipped = true
+			}
 			return
 		}
 	}()
@@ -179,22 +186,7 @@ func (sc *SlotChain) Entry(ctx *EntryContext) *TokenResult {
 	}
 
 	// execute rule based checking slot
-	rcs := sc.ruleChecks
-	var ruleCheckRet *TokenResult
-	if len(rcs) > 0 {
-		for _, s := range rcs {
-			sr := s.Check(ctx)
-			if sr == nil {
-				// nil equals to check pass
-				continue
-			}
-			// check slot result
-			if sr.IsBlocked() {
-				ruleCheckRet = sr
-				break
-			}
-		}
-	}
+	ruleCheckRet := sc.checkRules(ctx)
 	if ruleCheckRet == nil {
 		ctx.RuleCheckResult.ResetToPass()
 	} else {
@@ -204,6 +196,7 @@ func (sc *SlotChain) Entry(ctx *EntryContext) *TokenResult {
 	// execute statistic slot
 	ss := sc.stats
 	ruleCheckRet = ctx.RuleCheckResult
+	statStarted = true
 	if len(ss) > 0 {
 		for _, s := range ss {
 			// indicate the result of rule based checking slot.
@@ -218,6 +211,30 @@ func (sc *SlotChain) Entry(ctx *EntryContext) *TokenResult {
 	return ruleCheckRet
 }
 
+// checkRules runs the rule check slots in order and returns the first blocked result (nil means pass).
+// A panic raised by rule evaluation is contained here: the request is passed and recorded as passed.
+func (sc *SlotChain) checkRules(ctx *EntryContext) (ruleCheckRet *TokenResult) {
+	defer func() {
+		if err := recover(); err != nil {
+			logging.Error(errors.Errorf("%+v", err), "Sentinel internal panic in rule checking of SlotChain.Entry()")
+			ctx.SetError(errors.Errorf("%+v", err))
+			ruleCheckRet = nil
+		}
+	}()
+	for _, s := range sc.ruleChecks {
+		sr := s.Check(ctx)
+		if sr == nil {
+			// nil equals to check pass
+			continue
+		}
+		// check slot result
+		if sr.IsBlocked() {
+			return sr
+		}
+	}
+	return nil
+}
+
 func (sc *SlotChain) exit(ctx *EntryContext) {
 	if ctx == nil || ctx.Entry() == nil {
 		logging.Error(errors.New("entryContext or SentinelEntry is nil"),
@@ -226,6 +243,10 @@ func (sc *SlotChain) exit(ctx *EntryContext) {
 	}
 	// The OnCompleted is called only when entry passed
 	if ctx.IsBlocked() {
+		return
+	}
+	// ... and was recorded as passed by the statistic slots
+	if ctx.statSkipped {
 		return
 	}
 	for _, s := range sc.stats {
